@@ -15,7 +15,8 @@ EXPLANATION = (
     "return passes a write of self.mode. MODE: the mode switches of dispatch and back cover all variants. ATOM: inflate() turns "
     "Ok into BufError exactly under ((in_read==0 && out_written==0) || flush==Finish). Which copy runs depends on the schedule, "
     "so disagreement or a lost write-back makes two schedules of one input differ. Arithmetic equality inside siblings is not decided. "
-    "PAIR/handover-after-suspension: in every arm, after the local `mode` has been set to another arm no input request (need_bits/pull_byte suspension exit) is reachable inside the same arm - otherwise a split input resumes in the successor and skips the rest of the arm.")
+    "PAIR/handover-after-suspension: in every arm, after the local `mode` has been set to another arm no input request (need_bits/pull_byte suspension exit) is reachable inside the same arm - otherwise a split input resumes in the successor and skips the rest of the arm. "
+    "SIB/arms window-geometry: the fast decoder and both Match arms take the window geometry from the same Window accessors. GUARD/checksum-update (shared with C08).")
 
 CLAIM = dict(
     text="Static sibling-agreement (set fingerprints over MIR arm regions) of the schedule-selected copies of the symbol "
